@@ -25,8 +25,11 @@ LEVEL = "exploration"
 
 SIGMA = ["a", '"', "'", "\\", "\n", "\r", "\t", " ", "é", "\U0001F600", ".", "#"]
 
+NUMERIC = {XSD[n] for n in ("integer", "decimal", "double", "float", "long", "int", "short", "byte", "unsignedLong", "unsignedInt", "unsignedShort", "unsignedByte",
+                           "nonNegativeInteger", "positiveInteger", "negativeInteger", "nonPositiveInteger")}
+
 LEX = {
-    "integer": ["1", "01", "+1", "-0", "0", "abc", "", " 1", "1.0"],
+    "integer": ["1", "01", "+1", "-0", "0", "abc", "", " 1", "1.0", "500"],
     "decimal": ["1.0", "1", "01.10", ".5", "-0.0", "1e0", "x"],
     "double": ["1.0E0", "1e0", "1.0", "NaN", "INF", "-INF", "+INF", "-0.0", "0", "1.5e300", "nan", "inf"],
     "float": ["1.0", "NaN", "INF", "-INF", "1e0"],
@@ -46,7 +49,7 @@ LEX = {
     "long": ["1", "9223372036854775808"],
     "int": ["1", "2147483648"],
     "short": ["1", "32768"],
-    "byte": ["1", "128", "-129"],
+    "byte": ["1", "128", "-129", "999"],
     "unsignedInt": ["1", "-1"],
     "unsignedByte": ["255", "256"],
     "nonNegativeInteger": ["0", "-1"],
@@ -192,6 +195,20 @@ def pair_check(da, db):
         v.append(("compare-raises|%s|%s" % (kinds, type(ex).__name__), {"exc": repr(ex)[:200]}))
         return v
     ta, tb = type(a), type(b)
+    if ta is Literal and tb is Literal:
+        # what any reproducible sort needs of the literal order, whatever that order is: a term is not before itself, and no two literals are each before the other
+        try:
+            r = {"lt": b < a, "gt": b > a}
+        except Exception as ex:  # noqa: BLE001
+            v.append(("compare-raises|%s|%s" % (kinds, type(ex).__name__), {"exc": repr(ex)[:200]}))
+            return v
+        cls = _order_class(a, b)
+        if same and (o["lt"] or o["gt"]):
+            v.append(("literal-order|term-before-itself|" + cls, {"ops": o}))
+        elif (o["lt"] and r["lt"]) or (o["gt"] and r["gt"]):
+            v.append(("literal-order|each-before-the-other|" + cls, {"a?b": o, "b?a": r}))
+        elif o["lt"] != r["gt"] or o["gt"] != r["lt"]:
+            v.append(("literal-order|less-is-not-converse-of-greater|" + cls, {"a?b": o, "b?a": r}))
     if ta is not tb:
         exp_lt = RANK[ta] < RANK[tb]
         if o["lt"] != exp_lt or o["gt"] != (not exp_lt) or o["le"] != exp_lt or o["ge"] != (not exp_lt):
@@ -202,6 +219,37 @@ def pair_check(da, db):
         if o != exp:
             v.append(("same-kind-order-not-string-order|" + kinds, {"ops": o, "expected": exp}))
     return v
+
+
+def _order_class(*ts):
+    parts = set()
+    for t in ts:
+        if t.language:
+            parts.add("lang")
+        elif t.datatype is None or t.datatype == XSD.string:
+            parts.add("string")
+        elif t.datatype in NUMERIC:
+            parts.add("numeric:nan" if (isinstance(t.value, float) and t.value != t.value) else "numeric:ill-typed" if t.ill_typed else "numeric")
+        else:
+            parts.add("other:ill-typed" if t.ill_typed else "other")
+    return ",".join(sorted(parts))
+
+
+def _edge_class(x, y):
+    """One step x < y of a cycle: the kinds of the two literals and which candidate orders the step follows (value / datatype IRI / lexical form)."""
+    kinds = "~".join(sorted([_order_class(x), _order_class(y)]))
+    follows = []
+    try:
+        if x.datatype in NUMERIC and y.datatype in NUMERIC and x.value is not None and y.value is not None and x.value < y.value:
+            follows.append("value")
+    except Exception:  # noqa: BLE001
+        pass
+    dx, dy = str(x.datatype or XSD.string), str(y.datatype or XSD.string)
+    if dx < dy:
+        follows.append("datatype")
+    if not follows:
+        follows.append("form" if str.__str__(x) < str.__str__(y) else "other")
+    return "%s:%s%s" % (kinds, "same-datatype," if dx == dy else "", "/".join(follows))
 
 
 def single_check(d, graph_check=True):
@@ -308,9 +356,23 @@ def _sorted_batch(arg):
     triples, pool = arg
     viols = []
     n = 0
+    terms = [mk(d) for d in pool]
     for idx in triples:
         ds = [pool[i] for i in idx]
-        ts = [mk(d) for d in ds]
+        ts = [terms[i] for i in idx]
+        if all(type(t) is Literal for t in ts):
+            # several literals: ties (equal values of different datatypes, unordered values) are placed by arrival order, so the sorted sequence is not
+            # demanded to be the same; what is demanded is that "<" has no cycle, without which no arrival order sorts reproducibly
+            try:
+                n += 6
+                for x, y, z in itertools.permutations(ts):
+                    if x < y and y < z and z < x:
+                        edges = sorted({_edge_class(x, y), _edge_class(y, z), _edge_class(z, x)})
+                        viols.append({"sig": "literal-order|cycle|" + "+".join(edges), "case": {"triple": ds}, "detail": {"cycle": [tkey(x), tkey(y), tkey(z)]}})
+                        break
+            except Exception as ex:  # noqa: BLE001
+                viols.append({"sig": "sorted-raises|%s" % type(ex).__name__, "case": {"triple": ds}, "detail": {"exc": repr(ex)[:200]}})
+            continue
         try:
             ref = [tkey(x) for x in sorted(ts)]
             for perm in itertools.permutations(ts):
@@ -370,6 +432,19 @@ def run(ctx):
     for viols, n in res:
         ctx.extend(viols)
         ctx.add("sorted_calls", n)
+    # every 3-subset of the numeric literals (valid, non-canonical, out of range, NaN/INF, no value) plus one literal of every other datatype / language / plain
+    numeric = [d for d in alpha if d[0] == "L" and d[2] is not None and URIRef(d[2]) in NUMERIC]
+    others, have_dt = [], set()
+    for d in alpha:
+        if d[0] == "L" and d not in numeric and (d[2], d[3]) not in have_dt:
+            have_dt.add((d[2], d[3]))
+            others.append(d)
+    lpool = numeric + others
+    ltriples = list(itertools.combinations(range(len(lpool)), 3))
+    res = R.pmap(_sorted_batch, [(s, lpool) for s in R.shards(ltriples, ctx.jobs * 4)], ctx.jobs)
+    for viols, n in res:
+        ctx.extend(viols)
+        ctx.add("literal_order_triples", n // 6)
     ctx.cov["exhaustive"] = True
     ctx.cov["rule"] = ("All ordered pairs of a %d-term alphabet (kinds sharing text, every recognised datatype x valid/non-canonical/invalid "
                        "forms, language-case variants, NaN/INF, naive/aware date-times, strings over the 12-char alphabet): eq reflexive/"
